@@ -26,6 +26,103 @@ def is_decode_body(b):
     return b.file.startswith(("src/decode/", "src/xz/")) and b.promoted is None
 
 
+def _carried_round(b, c, tm, lb, head, L, old, X, is_me):
+    """One round of a refill loop, walked concretely for the (boolean) local L: L = old at the loop head, every element-wise scan of the
+    peeked buffer (`Iterator::all` / `any`) yields X; other values are unknown and both edges of a test on them are followed.
+    Returns the set of values of L at the back edge (None = unknown), or None when the walk gives up."""
+    def opval(o, env):
+        if o is None:
+            return None
+        if o.k == "const":
+            return int(o.val) if isinstance(o.val, (bool, int)) else None
+        if o.place is not None and not o.place.proj:
+            return env.get(o.place.local)
+        return None
+    out = set()
+    seen = set()
+    stack = [(head, {L: old})]
+    steps = 0
+    while stack:
+        bb, env = stack.pop()
+        key = (bb, tuple(sorted((k, v) for k, v in env.items() if v is not None)))
+        if key in seen:
+            continue
+        seen.add(key)
+        steps += 1
+        if steps > 4000:
+            return None
+        env = dict(env)
+        blk = b.blocks[bb]
+        for st in blk.stmts:
+            if st.k != "assign" or st.place.proj:
+                continue
+            rv, v = st.rv, None
+            if rv.k == "use":
+                v = opval(rv.op, env)
+            elif rv.k == "unop" and rv.unop == "Not":
+                a = opval(rv.a, env)
+                v = None if a is None else (0 if a else 1)
+            elif rv.k == "binop":
+                a, b2 = opval(rv.a, env), opval(rv.b, env)
+                if rv.binop == "BitAnd":
+                    v = 0 if (a == 0 or b2 == 0) else (a & b2 if None not in (a, b2) else None)
+                elif rv.binop == "BitOr":
+                    v = 1 if (a == 1 or b2 == 1) else (a | b2 if None not in (a, b2) else None)
+                elif None not in (a, b2):
+                    v = {"BitXor": a ^ b2, "Eq": int(a == b2), "Ne": int(a != b2)}.get(rv.binop)
+            env[st.place.local] = v
+        t = blk.term
+        if t.k == "call":
+            v = None
+            dn = flow.declared(t) or ""
+            if dn.endswith(("Iterator::all", "Iterator::any")) and any(flow.term_has(tm.of_operand(a), is_me) for a in t.args):
+                v = X
+            if t.dest is not None and not t.dest.proj:
+                env[t.dest.local] = v
+            succs = [t.target] if t.target is not None else []
+        elif t.k == "switch":
+            d = opval(t.discr, env)
+            if d is None:
+                succs = [tg for _, tg in t.targets] + [t.otherwise]
+            else:
+                succs = [tg for v_, tg in t.targets if v_ == d] or [t.otherwise]
+        else:
+            succs = [y for y in c.succ[bb] if not b.blocks[y].cleanup]
+        for y in succs:
+            if y is None:
+                continue
+            if y == head:
+                out.add(env.get(L))
+            elif y in lb:
+                stack.append((y, env))
+    return out
+
+
+def _returned_local(b):
+    """The plain local whose value the function returns inside `Ok(..)` (copies chased), or None."""
+    for blk in b.blocks:
+        if blk.cleanup:
+            continue
+        for st in blk.stmts:
+            if st.k == "assign" and st.place.local == 0 and st.rv.k == "aggregate":
+                for o in st.rv.ops:
+                    if o.place is None or o.place.proj:
+                        continue
+                    L = o.place.local
+                    for _ in range(6):
+                        ds = [s2 for b2 in b.blocks for s2 in b2.stmts if s2.k == "assign" and not s2.place.proj and s2.place.local == L]
+                        if len(ds) == 1 and ds[0].rv.k == "use" and ds[0].rv.op.place is not None and not ds[0].rv.op.place.proj:
+                            L = ds[0].rv.op.place.local
+                        elif len(ds) == 1 and ds[0].rv.k == "unop" and ds[0].rv.unop == "Not" and ds[0].rv.a.place is not None and \
+                                not ds[0].rv.a.place.proj:
+                            L = ds[0].rv.a.place.local      # `Ok(!bad)`: stickiness does not depend on the polarity
+                        else:
+                            break
+                    if b.locals[L].ty.k == "bool":
+                        return L
+    return None
+
+
 def rule_fill_buf(facts):
     r = report.RuleResult("C13.R1", "the size/content of a peeked buffer decides nothing but emptiness")
     n = 0
@@ -203,6 +300,23 @@ def rule_fill_buf(facts):
                                         if flow.term_has(a3, is_me) and not flow.term_has(a3, is_lv) and \
                                                 not ((pat.has_call(a3, "is_empty") or pat.has_call(a3, "::len")) and not pat.has_call(a3, "Iterator::")):
                                             over = (blk3.idx, a3)
+                        # decided concretely where possible: one round of the loop walked for the returned flag under (old value, scan
+                        # result) - the flag must be sticky in one direction (`ok &= x`, `ok = ok && x`, `if !x { ok = false }`,
+                        # `bad |= y`), whatever its spelling; the term test above is the fallback
+                        L_ = _returned_local(b)
+                        hd_ = [h for h, blocks, _ in c.loops() if me in blocks]
+                        if L_ is not None and hd_ and any(
+                                (st_.k == "assign" and not st_.place.proj and st_.place.local == L_) for x_ in lb for st_ in b.blocks[x_].stmts) or \
+                                L_ is not None and hd_ and any(b.blocks[x_].term.k == "call" and b.blocks[x_].term.dest is not None and
+                                                               not b.blocks[x_].term.dest.proj and b.blocks[x_].term.dest.local == L_ for x_ in lb):
+                            tab = {(o_, x_): _carried_round(b, c, tm, lb, hd_[0], L_, o_, x_, is_me) for o_ in (0, 1) for x_ in (0, 1)}
+                            if all(v is not None and v and None not in v for v in tab.values()):
+                                sticky0 = tab[(0, 0)] == {0} and tab[(0, 1)] == {0}
+                                sticky1 = tab[(1, 0)] == {1} and tab[(1, 1)] == {1}
+                                if sticky0 or sticky1:
+                                    over = None
+                                elif over is None:
+                                    over = (hd_[0], ("const", 0))
                         if over is not None:
                             okk = False
                             r.bad("%s|scan-overwrite" % fn, "the result of the scan is recomputed from each peeked fragment (%s) without the "
